@@ -140,6 +140,7 @@ type Exec struct {
 	qn               int
 	lastLocalMods    []*Loc
 	fcIdents         map[string]bool
+	clauseErr        error               // first site clause that could not be evaluated (see assertClause)
 	renameMap        map[string]string   // contract identifier -> local variable it is taken to denote (rename fallback)
 	renameCands      map[string][]string // unresolved identifier -> candidate locals (several unmentioned locals)
 	qfForward        bool    // instantiation order used by the quantifier-free weakening of the current attempt
